@@ -358,7 +358,13 @@ prop("C06",
          "scope. Linearity of einsum in one operand is an axiom (its "
          "definition). The whole-expression statement follows by structural "
          "induction (DESIGN Appendix A.6, paper). The raiser used at the call "
-         "site is the C19 contract."),
+         "site is the C19 contract. Whole programs (contract einsum.programs: "
+         "seeded random DAGs, shared broadcast operands, constant-filled "
+         "summands): the no-broadcast rewrite is proved per program by z3 "
+         "(all sizes, inputs, indices); the distributive law on whole "
+         "programs is a BOUNDED stand-in (both graphs evaluated on sampled "
+         "inputs at three sizes) because linearity of an uninterpreted "
+         "reduction is outside the pointwise denotation."),
      technique="contract-based deductive verification: symbolic execution of "
                "the real rewriter + VCs over uninterpreted linear maps (z3 "
                "with quantified linearity axioms) / denotational equality",
